@@ -38,6 +38,9 @@ Alphabet ==
     [] AlphaName = "full" -> Names \o Lits \o OpChars \o InOp \o Parens \o Brackets \o Extra
     \* quoted names that print like interactions: term identity must be the SET of factor expressions, not a joined string
     [] AlphaName = "colon" -> << Names[1], Names[2], A(W!Tok("name", "a:b"), "`a:b`"), A(W!Tok("name", "b:a"), "`b:a`"), OpC("+"), OpC("-"), OpC(":"), OpC("*") >>
+    \* multistage formulas: stages combined with the other operators, nested stages, stages in parts and sides
+    [] AlphaName = "stage" -> << Names[1], Names[2], OpC("~"), OpC("+"), Brackets[1], Brackets[2] >>
+    [] AlphaName = "stage2" -> << Names[1], Names[2], OpC("~"), OpC("+"), OpC("-"), OpC(":"), OpC("|"), Brackets[1], Brackets[2] >>
     [] AlphaName = "signs" -> << Names[1], Names[2], Lits[1], Lits[2], OpC("+"), OpC("-"), OpC("~"), OpC("|"), OpC(":"), OpC("*") >>
 
 AllFlags == {"TWOSIDED", "MULTIPART", "MULTISTAGE"}
@@ -54,6 +57,8 @@ Cfgs ==
                        {"MULTIPART", "MULTISTAGE"}, AllFlags >>
              avs == << Avail(TRUE, <<"c", "a", "b">>), Avail(FALSE, <<>>) >>
          IN [k \in 1..32 |-> Cfg(((k - 1) \div 16) = 0, fls[(((k - 1) \div 2) % 8) + 1], avs[((k - 1) % 2) + 1])]
+    [] CfgName = "stage" -> << Cfg(TRUE, AllFlags, Avail(FALSE, <<>>)), Cfg(FALSE, AllFlags, Avail(FALSE, <<>>)),
+                               Cfg(FALSE, {"MULTISTAGE"}, Avail(FALSE, <<>>)) >>
     [] CfgName = "default" -> << Cfg(TRUE, Default, Avail(TRUE, <<"c", "a", "b">>)) >>
 
 VARIABLE str     \* the string: sequence of alphabet indices
@@ -83,7 +88,7 @@ RefR(c) == Ref!Ref(c, Toks)
 Agree(i, r) ==
   \/ i.st = "UNMODELLED" \/ r.st = "UNMODELLED"
   \/ (i.st = "REJECT" /\ r.st = "REJECT")
-  \/ (i.st = "OK" /\ r.st = "OK" /\ i.shape = r.shape /\ i.lhs = r.lhs /\ i.rhs = r.rhs)
+  \/ (i.st = "OK" /\ r.st = "OK" /\ i.shape = r.shape /\ i.lhs = r.lhs /\ i.rhs = r.rhs /\ i.tree = r.tree)
 
 LiberalReject(i, r) == i.st = "REJECT" /\ r.st = "OK"
 
@@ -94,7 +99,7 @@ NoSilentMisread == \A k \in DOMAIN Cfgs : LET i == Impl(Cfgs[k]) r == RefR(Cfgs[
 \* flag monotonicity (C14): what a restricted parser accepts, the unrestricted one accepts identically
 FlagMonotone == \A k \in DOMAIN Cfgs :
    LET c == Cfgs[k] i == Impl(c) j == Impl([c EXCEPT !.flags = AllFlags]) IN
-   i.st = "OK" => (j.st = "UNMODELLED" \/ (j.st = "OK" /\ j.shape = i.shape /\ j.lhs = i.lhs /\ j.rhs = i.rhs))
+   i.st = "OK" => (j.st = "UNMODELLED" \/ (j.st = "OK" /\ j.shape = i.shape /\ j.lhs = i.lhs /\ j.rhs = i.rhs /\ j.tree = i.tree))
 
 \* shunting-yard machine invariants on the rewritten token stream of every configuration
 MachineOK == \A k \in DOMAIN Cfgs :
@@ -107,7 +112,7 @@ Join(ss, sep) == IF ss = <<>> THEN "" ELSE IF Len(ss) = 1 THEN ss[1] ELSE ss[1] 
 TermStr(t) == Join(W!ExprSeq(t), " & ")      \* injective as long as no factor expression contains " & "
 TermsStr(ts) == IF ts = <<>> THEN "{}" ELSE Join([i \in DOMAIN ts |-> TermStr(ts[i])], " + ")
 PartsStr(ps) == Join([i \in DOMAIN ps |-> TermsStr(ps[i])], " | ")
-ResStr(res) == CASE res.st = "REJECT" -> "R" [] res.st = "UNMODELLED" -> "U"
+ResStr(res) == CASE res.st = "REJECT" -> "R" [] res.st = "UNMODELLED" -> "U" [] res.shape = "tree" -> "tree#" \o W!TreeStr(res.tree)
                  [] OTHER -> res.shape \o "#" \o PartsStr(res.lhs) \o "#" \o PartsStr(res.rhs)
 
 Out == IOEnv.OUT_FILE
